@@ -19,12 +19,20 @@ def CacheError.code : CacheError → Nat
   | .outOfMemory => 0x82 | .notSupported => 0x83 | .internalError => 0x84 | .busy => 0x85
   | .temporaryFailure => 0x86
 
-def CacheError.text : CacheError → String
-  | .notFound => "Not found" | .keyExists => "Key exists" | .valueTooLarge => "Value too big"
-  | .invalidArguments => "Invalid arguments" | .itemNotStored => "Item not stored"
-  | .arithOnNonNumeric => "Incr/Decr on non numeric value" | .unknownCommand => "Invalid command"
-  | .outOfMemory => "Out of memory" | .notSupported => "Not supported"
-  | .internalError => "Internal error" | .busy => "Busy" | .temporaryFailure => "Temporary failure"
+/-- `to_static_string`, as the bytes written on the wire (ASCII) -/
+def CacheError.text : CacheError → Bytes
+  | .notFound => [78, 111, 116, 32, 102, 111, 117, 110, 100]   -- "Not found"
+  | .keyExists => [75, 101, 121, 32, 101, 120, 105, 115, 116, 115]   -- "Key exists"
+  | .valueTooLarge => [86, 97, 108, 117, 101, 32, 116, 111, 111, 32, 98, 105, 103]   -- "Value too big"
+  | .invalidArguments => [73, 110, 118, 97, 108, 105, 100, 32, 97, 114, 103, 117, 109, 101, 110, 116, 115]   -- "Invalid arguments"
+  | .itemNotStored => [73, 116, 101, 109, 32, 110, 111, 116, 32, 115, 116, 111, 114, 101, 100]   -- "Item not stored"
+  | .arithOnNonNumeric => [73, 110, 99, 114, 47, 68, 101, 99, 114, 32, 111, 110, 32, 110, 111, 110, 32, 110, 117, 109, 101, 114, 105, 99, 32, 118, 97, 108, 117, 101]   -- "Incr/Decr on non numeric value"
+  | .unknownCommand => [73, 110, 118, 97, 108, 105, 100, 32, 99, 111, 109, 109, 97, 110, 100]   -- "Invalid command"
+  | .outOfMemory => [79, 117, 116, 32, 111, 102, 32, 109, 101, 109, 111, 114, 121]   -- "Out of memory"
+  | .notSupported => [78, 111, 116, 32, 115, 117, 112, 112, 111, 114, 116, 101, 100]   -- "Not supported"
+  | .internalError => [73, 110, 116, 101, 114, 110, 97, 108, 32, 101, 114, 114, 111, 114]   -- "Internal error"
+  | .busy => [66, 117, 115, 121]   -- "Busy"
+  | .temporaryFailure => [84, 101, 109, 112, 111, 114, 97, 114, 121, 32, 102, 97, 105, 108, 117, 114, 101]   -- "Temporary failure"
 
 /-- `CacheMetaData` -/
 structure Meta where
